@@ -27,7 +27,8 @@ ASSUMPTIONS = [
     "a DF17 frame with a payload bit flipped, a 3-byte fragment and the empty frame",
     "the clock of the property is the one the implementation documents: milliseconds, floor(timestamp * 1e3)",
     "driver hook H3 logs at the channel boundary: IN before send, OUT after the task is parked on recv() again",
-    "a reception = (receiver serial 0..4, unique id carried in the metadata's nanoseconds field): neighbouring receptions often come from the same receiver, as in production",
+    "a reception = (receiver serial 0..4, unique id carried in the metadata's nanoseconds field): neighbouring receptions often come from the same receiver, as in production; "
+    "receivers 1 and 3 also carry a gnss_timestamp one second ahead of / behind the record's timestamp (a receiver clock is not the property's clock)",
     "records still open when the input closes are not required (their window never closed)",
     "decode1090 -i/-d (the second copy of the algorithm, with a final flush) is observed from outside: JSON lines in, JSON lines out; "
     "timestamps there have at most 4 decimals so that every JSON reader parses them to the same double",
@@ -36,7 +37,7 @@ ASSUMPTIONS = [
     "whose receptions have not all come out 45 s after later traffic closed its window is a loss only when a second attempt reproduces it",
 ]
 
-MANDATORY = ["system:records", "system:groups-merged-from-several-receivers", "cli:history:monotone", "cli:history:non-monotone", "shape:reopened-frame", "shape:equal-stamps", "shape:decreasing-stamps", "shape:W=0",
+MANDATORY = ["system:receptions-with-a-receiver-clock", "system:records", "system:groups-merged-from-several-receivers", "cli:history:monotone", "cli:history:non-monotone", "shape:reopened-frame", "shape:equal-stamps", "shape:decreasing-stamps", "shape:W=0",
              "shape:undecodable-group-dropped", "shape:group>=3", "shape:joined-at-expiry", "shape:several-closed-at-once"]
 
 
@@ -195,7 +196,14 @@ def scenario_of(window, ins, tag):
     lines = [{"reset": window, "tag": tag}]
     for frame, ts, rid in ins:
         # receptions of one receiver share its serial (as in production); the unique reception id travels separately
-        lines.append({"frame": frame, "ts": ts, "id": rid, "rx": rid % 8})
+        line = {"frame": frame, "ts": ts, "id": rid, "rx": rid % 8}
+        # receivers 1 and 3 are GPS-timed (Radarcape-like): their metadata carries a clock of their own, one second
+        # ahead of / behind the host's. Only the record's timestamp is the clock of the property.
+        if rid % 8 == 1:
+            line["gnss"] = ts + 1.0
+        elif rid % 8 == 3:
+            line["gnss"] = max(0.0, ts - 1.0)
+        lines.append(line)
     return lines
 
 
@@ -355,7 +363,12 @@ def run_cli(rep, cli, window, ins, decodable, tmpdir):
     path = os.path.join(tmpdir, f"c10cli.{os.getpid()}.jsonl")
     with open(path, "w") as f:
         for frame, ts, rid in ins:
-            f.write(json.dumps({"timestamp": ts, "frame": frame, "metadata": [{"system_timestamp": ts, "serial": rid % 8, "nanoseconds": rid}]}) + "\n")
+            meta = {"system_timestamp": ts, "serial": rid % 8, "nanoseconds": rid}
+            if rid % 8 == 1:
+                meta["gnss_timestamp"] = ts + 1.0
+            elif rid % 8 == 3:
+                meta["gnss_timestamp"] = max(0.0, ts - 1.0)
+            f.write(json.dumps({"timestamp": ts, "frame": frame, "metadata": [meta]}) + "\n")
     try:
         p = subprocess.run([cli, "-i", path, "-d", str(window)], stdout=subprocess.PIPE, stderr=subprocess.PIPE, timeout=300)
     except subprocess.TimeoutExpired:
